@@ -24,7 +24,8 @@ TECHNIQUE = 'abstract interpretation of driver.c with nondeterministic models of
 SHAPES = [
     (['-E', 'x.c'], 'E'), (['-c', 'x.s'], 'c-asm'), (['-S', 'x.i'], 'S-cppout'), (['-S', 'x.c'], 'S-c'), (['-c', 'x.c'], 'c-c'),
     (['-c', '-o', 'out.o', 'x.qbe'], 'c-o-qbe'), (['-emit-qbe', '-o', 'out.qbe', 'x.c'], 'emitqbe-o'), (['-o', '-', '-S', 'x.c'], 'S-stdout'),
-    (['x.s'], 'link-asm'), (['a.h', 'b.s'], 'link-hdr-asm'), (['-x', 'c-header', 'a.c', '-x', 'none', 'y.o'], 'link-xhdr-obj'), (['x.o'], 'link-obj'), (['x.s', 'y.s'], 'link-2asm'), (['x.qbe', 'y.o', 'z.s'], 'link-3'),
+    (['x.s'], 'link-asm'), (['a.h', 'b.s'], 'link-hdr-asm'), (['-x', 'c-header', 'a.c', '-x', 'none', 'y.o'], 'link-xhdr-obj'), (['x.o'], 'link-obj'), (['x.s', 'y.s'], 'link-2asm'), (['x.qbe', 'y.o', 'z.s'], 'link-3'), (['y.o', 'x.s', 'z.s'], 'link-obj-first'),      # an object file before the sources: the clean-up of earlier temporaries skips it and goes on
+   
 ]
 THOROUGH = [(['x.c'], 'link-c'), (['x.c', 'y.s'], 'link-c-asm'), (['-c', '-o', 'o.o', 'x.c'], 'c-o-c')]
 
